@@ -176,6 +176,19 @@ def run_lookup(shard, ctx):
             for col in ([1, 2, 3, 4] if bi % 2 == 0 else [rng.randrange(1, 5), rng.choice([0, 5, -1, 6, 2.0])]):
                 vals.append([(0, 'F1', lv), (0, 'G1', col)])
 
+        if None in keys and not kind.startswith('text'):
+            # the free rows of a generously sized table get a key and entries through overrides: the row is part of the table from then on
+            free = [i for i, k in enumerate(keys) if k is None]
+            real = [k for k in keys if k is not None]
+            for row0 in free[:2]:
+                newkey = (max(real) + 5 + row0) if (asc or row0 == free[0]) else min(real) - 3
+                if asc and row0 != min(free):
+                    continue          # ascending keys stay ascending only when the first free row below the data is filled
+                fill = [(0, f'A{row0 + 1}', newkey)] + [(0, f'{col}{row0 + 1}', 7000 + 100 * j + row0) for j, col in enumerate('BCD')]
+                for lv in (newkey, newkey + 1, max(real)):
+                    vals.append(fill + [(0, 'F1', lv), (0, 'G1', rng.randrange(1, 5))])
+                r.count('overrides_filling_a_blank_key_row')
+
         def nontrivial(case, outs):
             e = outs[0]
             return not (is_num(e) and e in (1, 2001))
